@@ -15,6 +15,10 @@ Ops6PrepQuick == {A(<<"A">>, "m", "res")}
 \* focused family: waiters that give up (a timeout of their own) next to waiters that stay, and a publication afterwards
 Ops6bPrep == {A(<<"A">>, "m", "res"), G("A", "m", "giveup")}
 Ops6bStart == {A(<<"A">>, "m", "res"), G("A", "m", "wait"), G("A", "m", "giveup")}
+\* focused family for C05: a flat tree of up to three children in which two may wait (for different names) while a third publishes both,
+\* in either order: the waiter that subscribed first is satisfied while the other keeps waiting, then the second publication follows
+Ops5c == {G("A", "m1", "wait"), G("A", "m2", "wait"), A(<<"A">>, "m1", "res"), A(<<"A">>, "m2", "res")}
+Flat5c == \A c \in 1..prog.n : prog.par[c] \in {0, 1} /\ ~prog.hp[c] /\ (c = 1 => prog.ss[c] = <<>>) /\ (c > 1 => prog.hs[c] /\ prog.ss[c] # <<>>)
 Ops7 == {Noop}
 Dump == Terminal => PrintT(ToJson([prog |-> prog, hist |-> hist, fin |-> rt.sc]))
 =============================================================================
